@@ -18,7 +18,7 @@ CONSTANTS
   FocusMax = 4
   FixO1 = TRUE
   FixRetry = TRUE
-  FixRetryList = FALSE
+  FixRetryList = TRUE
   MaxTried = 2
 INVARIANTS Q1 Q1b Q1r Q2 Q3 Q4 Q5 PickIsDoc ViewsAgree
 VIEW MCView
